@@ -191,6 +191,55 @@ def nsc_allows(nsc, ns):
     return ns in nsc[1]
 
 
+def nsc_union(a, b):
+    """Attribute Wildcard Union (3.10.6) restricted to the cases that are expressible in every edition; None otherwise"""
+    if a[0] == 'any' or b[0] == 'any':
+        return ('any',)
+    if a[0] == 'set' and b[0] == 'set':
+        return ('set', frozenset(a[1]) | frozenset(b[1]))
+    if a[0] == 'other' and b[0] == 'other':
+        return a if a[1] == b[1] else None
+    o, st = (a, b) if a[0] == 'other' else (b, a)
+    if o[1] in st[1] and None in st[1]:
+        return ('any',)
+    if o[1] not in st[1] and None not in st[1]:
+        return o
+    return None
+
+
+def nsc_split(nsc, tns, r, kind=None):
+    """two namespace constraints (A, B) whose intersection (Attribute Wildcard Intersection, 3.10.6) is nsc;
+    kind in ('sets', 'any', 'other-absent', 'other-tns', 'other-both') forces the shape where it applies"""
+    pool = [None, tns, U, O, 'urn:x3']
+    if nsc[0] == 'any':
+        return ('any',), ('any',)
+    if nsc[0] == 'other':
+        return r.choice([(nsc, ('any',)), (('any',), nsc), (nsc, nsc)])
+    S = frozenset(nsc[1])
+    opts = ['sets', 'any']
+    if None not in S and tns not in S:
+        opts += ['other', 'other']
+    k = r.choice(opts)
+    extra_forced = None
+    if kind in ('sets', 'any') or (kind and kind.startswith('other') and 'other' in opts):
+        k = kind.split('-')[0]
+        extra_forced = {'other-absent': frozenset([None]), 'other-tns': frozenset([tns]), 'other-both': frozenset([None, tns])}.get(kind)
+    if k == 'any':
+        return r.choice([(('any',), nsc), (nsc, ('any',))])
+    if k == 'other':
+        # not(tns) loses the negated namespace AND absent from the set
+        extra = r.choice([frozenset([None]), frozenset([tns]), frozenset([None, tns])])
+        if extra_forced is not None:
+            extra = extra_forced
+        st = ('set', S | extra)
+        return r.choice([(('other', tns), st), (st, ('other', tns))])
+    rest = [x for x in pool if x not in S]
+    r.shuffle(rest)
+    n1 = r.randint(0, len(rest))
+    n2 = r.randint(n1, len(rest))
+    return ('set', S | frozenset(rest[:n1])), ('set', S | frozenset(rest[n1:n2]))
+
+
 class CType:
     simple = False
 
@@ -257,7 +306,14 @@ class CType:
                 attrs[u.decl.key] = u
         self.attrs = attrs
         if self.method == 'extension' and not self.base.simple:
-            self.anyattr = self.own_anyattr if self.own_anyattr is not None else base_any
+            if self.own_anyattr is not None and base_any is not None:
+                # complete wildcard of an extension: union of the namespace constraints, {process contents} of the local one
+                un = nsc_union(self.own_anyattr[0], base_any[0])
+                if un is None:
+                    raise ValueError('attribute wildcard union outside the modelled subset')
+                self.anyattr = (un, self.own_anyattr[1])
+            else:
+                self.anyattr = self.own_anyattr if self.own_anyattr is not None else base_any
         else:
             self.anyattr = self.own_anyattr
         self._build_table(schema)
@@ -870,7 +926,11 @@ class Renderer:
             out.append('<xs:attributeGroup ref="%s"/>' % self.q(doc_tns, grouped))
         else:
             out += [self.attr_use(u, doc_tns) for u in t.own_attrs]
-        if t.own_anyattr is not None and not (grouped and t.render_hints.get('attgroup_any')):
+        split = t.render_hints.get('anysplit')      # (group name, B): the local wildcard is B, the group carries A; A ^ B = own_anyattr
+        if split and t.own_anyattr is not None:
+            out.append('<xs:attributeGroup ref="%s"/>' % self.q(doc_tns, split[0]))
+            out.append('<xs:anyAttribute namespace="%s" processContents="%s"/>' % (self.nsc(split[1], doc_tns), t.own_anyattr[1]))
+        elif t.own_anyattr is not None and not (grouped and t.render_hints.get('attgroup_any')):
             out.append('<xs:anyAttribute namespace="%s" processContents="%s"/>' % (self.nsc(t.own_anyattr[0], doc_tns), t.own_anyattr[1]))
         return ''.join(out)
 
@@ -2007,9 +2067,11 @@ def _gen_schema(r, force=None):
     r.shuffle(attr_pool)
     f_attrs = attr_pool[:r.choice([0, 1, 2, 2, 3, 4])]
     f_any = None
-    if r.random() < 0.25:
+    if force.get('fany', r.random() < 0.25):
         f_any = (r.choice([('any',), ('other', tns), ('set', frozenset([None])), ('set', frozenset([U])), ('set', frozenset([U, O]))]),
                  r.choice(['strict', 'lax', 'skip']))
+        if isinstance(force.get('fany'), tuple):
+            f_any = (force['fany'], f_any[1])
         tags.add('anyAttribute')
     fname = 'F' if named else None
     if kind == 'simple':
@@ -2033,7 +2095,18 @@ def _gen_schema(r, force=None):
             if xp is not None and xp[0] in ('e', 'any'):
                 xp = ('seq', [xp], 1, 1)
             xattrs = [AUse(ADecl(None, 'xa', B['int']), use=r.choice(['optional', 'required']))] if r.random() < 0.5 else []
-            FX = s.add_type(CType(tns, 'FX', base=F, method='extension', own_particle=xp, own_attrs=xattrs, mixed=F.mixed if kind != 'empty' else False))
+            x_any = None
+            if kind != 'simple' and force.get('xany', r.random() < 0.3):
+                # a wildcard of the extension itself: the complete wildcard is the union with the base type's
+                cands = [('any',), ('other', tns), ('set', frozenset([U])), ('set', frozenset([U, O])), ('set', frozenset([None, tns])), ('set', frozenset([O]))]
+                r.shuffle(cands)
+                for cnd in cands:
+                    if f_any is None or nsc_union(cnd, f_any[0]) is not None:
+                        x_any = (cnd, r.choice(['strict', 'lax', 'skip']))
+                        tags.add('attribute-wildcard-union' if f_any is not None else 'extension-anyAttribute')
+                        break
+            FX = s.add_type(CType(tns, 'FX', base=F, method='extension', own_particle=xp, own_attrs=xattrs, own_anyattr=x_any,
+                                  mixed=F.mixed if kind != 'empty' else False))
             roots.append(('rx', s.add_elem(EDecl(tns, 'rx', FX, glob=True))))
             derived.append(FX)
             tags.add('extension')
@@ -2049,6 +2122,11 @@ def _gen_schema(r, force=None):
                 if p[0] == 'all':
                     return ('all', [('e', x[1], r.choice([x[2], 1]), 1) for x in p[1]], r.choice([p[2], 1]), 1)
                 mn, mx = narrow(r, p[2], p[3])
+                if (mn, mx) == (1, 1) and (p[2], p[3]) != (1, 1):
+                    # a group narrowed to exactly {1,1} becomes a "pointless" particle in the restriction only: Particle
+                    # Valid (Restriction) is then applied to differently flattened trees and may fail by the letter of
+                    # 3.9.6 (e.g. wildcard against sequence is forbidden) -- not a restriction this generator can call valid
+                    mn, mx = p[2], p[3]
                 return (p[0], [restate(x) for x in p[1]], mn, mx)
             rp = restate(f_particle)
             rattrs = []
@@ -2075,7 +2153,17 @@ def _gen_schema(r, force=None):
     if f_particle is not None and f_particle[0] in ('seq', 'choice', 'all') and r.random() < 0.3:
         s.groupdefs[id(f_particle)] = ('G1', f_particle)
         tags.add('named-group')
-    if f_attrs and kind != 'simple' and r.random() < 0.3:
+    if f_any is not None and force.get('anysplit', r.random() < 0.5):
+        # the wildcard of F as the intersection of a local <anyAttribute> and one that comes from an attribute group
+        A, Bc = nsc_split(f_any[0], tns, r, kind=force.get('anysplit') if isinstance(force.get('anysplit'), str) else None)
+        s.attgroups.append(('AGW', [], (A, r.choice(['strict', 'lax', 'skip']))))
+        F.render_hints['anysplit'] = ('AGW', Bc)
+        tags.add('attribute-wildcard-intersection')
+        if f_attrs and kind != 'simple' and r.random() < 0.3:
+            s.attgroups.append(('AG1', f_attrs, None))
+            F.render_hints['attgroup'] = 'AG1'
+            tags.add('attributeGroup')
+    elif f_attrs and kind != 'simple' and r.random() < 0.3:
         s.attgroups.append(('AG1', f_attrs, f_any))
         F.render_hints['attgroup'] = 'AG1'
         F.render_hints['attgroup_any'] = True
